@@ -521,6 +521,9 @@ fn extreme_config_case(ctx: &Ctx, idx: u64, rng: &mut Rng) {
         Err(p) => {
             if p.contains("overflow") && !p.contains("capacity overflow") {
                 ctx.violation("arithmetic-overflow", "extreme-config", idx, detail("an arithmetic overflow on sizes (overflow-checked build)", p));
+            } else if allow_realloc {
+                // with reallocation allowed the buffer starts small: nothing impossible is asked for
+                ctx.violation("panic-with-a-workable-configuration", "extreme-config", idx, detail("a configuration that needs no impossible allocation panicked", p));
             } else {
                 // impossible allocation refused deliberately
                 ctx.count("extreme_configurations_refused_by_a_deliberate_panic", 1);
